@@ -88,6 +88,13 @@ CLAIMED = {
          "inline semantics, linearity and centred reconstruction for every code are compared with the extracted models / checked "
          "numerically on the fresh build",
          "Rocq proof + finite table check + translator + differential correspondence (exact integer regime)"),
+ "C18": ("proof", "Coq theorems over Q about an exact model of zoom_shift (real-valued border mapping, B-spline weights, mirrored edge "
+         "indices): in-range coordinates are untouched by every border mode; order-1 weights sum to one for every real coordinate; "
+         "order 1 is linear interpolation of the two neighbours and returns the sample at integer coordinates (zero shift / unit zoom "
+         "= identity, integer shift = translation); zoom returns the requested length and maps corners to corners. The model (orders "
+         "1-4, 5 modes, applied along every axis) is compared with the fresh build in the exact regime (no prefilter); prefilter, "
+         "partition of unity for orders 2-4, resize shapes and corners are checked per case",
+         "Rocq proof (Q) + differential correspondence (exact rational regime)"),
 }
 NOT_YET = "check not built yet in this round (see DESIGN.md section 8 for the plan)"
 ALL = ["C%02d" % i for i in range(1, 21)]
